@@ -16,10 +16,6 @@ def Item.fileBytes : Item → Bytes
   | .contextLine _ bs => bs
   | _ => []
 
-def Ev.isBinaryData : Ev → Bool
-  | .binaryData _ => true
-  | _ => false
-
 /-- `Quit` contract of the searcher: no delivered line holds a NUL. -/
 def Clean (evs : List Ev) : Prop := ∀ ev ∈ evs, 0 ∉ ev.bytes
 
@@ -143,7 +139,12 @@ theorem feed_no_nul (det : Det) (evs : List Ev) :
     | context off ln bs =>
       by_cases hsup : (det == Det.convert && st.binOff.isSome) = true
       · simp only [feed, step, hsup, if_true]
-        exact hout
+        apply ih _ (seen ++ [.context off ln bs]) hout _ hq' hc' hn
+        intro ⟨e, he, hb⟩
+        simp only [List.mem_append, List.mem_singleton] at he
+        cases he with
+        | inl h => exact hseen ⟨e, h, hb⟩
+        | inr h => subst h; simp [Ev.isBinaryData] at hb
       · simp only [feed, step, hsup, if_false, Bool.false_eq_true]
         apply ih _ (seen ++ [.context off ln bs]) _ _ hq' hc' hn
         · intro it hit
@@ -195,5 +196,158 @@ theorem finish_fileBytes (det : Det) (st : St) (h : ∀ it ∈ st.out, 0 ∉ it.
       · cases hit with
         | inl x => exact h it x
         | inr x => subst x; simp [Item.fileBytes]
+
+/-! ### predicates and closed forms used by the decision tables -/
+
+def Item.isMatchLine : Item → Bool
+  | .matchLine _ _ => true
+  | _ => false
+
+def Item.isLine : Item → Bool
+  | .matchLine _ _ => true
+  | .contextLine _ _ => true
+  | _ => false
+
+def Item.isNotice : Item → Bool
+  | .binaryMatches _ => true
+  | _ => false
+
+/-- item written for an event when nothing is suppressed -/
+def toItem : Ev → Option Item
+  | .matched _ ln bs => some (.matchLine ln bs)
+  | .context _ ln bs => some (.contextLine ln bs)
+  | .ctxBreak => some .sep
+  | .binaryData _ => none
+
+theorem feed_plain (det : Det) (hd : det ≠ .convert) (evs : List Ev) : ∀ st : St,
+    (feed det st evs).out = st.out ++ evs.filterMap toItem := by
+  have hcv : (det == Det.convert) = false := by cases det <;> simp_all
+  induction evs with
+  | nil => intro st; simp [feed]
+  | cons ev evs ih =>
+    intro st
+    cases ev with
+    | matched off ln bs =>
+      simp only [feed, step, hcv, Bool.false_and, Bool.false_eq_true, if_false]
+      rw [ih]
+      simp [toItem]
+    | context off ln bs =>
+      simp only [feed, step, hcv, Bool.false_and, Bool.false_eq_true, if_false]
+      rw [ih]
+      simp [toItem]
+    | ctxBreak =>
+      simp only [feed, step]
+      rw [ih]
+      simp [toItem]
+    | binaryData off =>
+      simp only [feed, step]
+      rw [ih]
+      have : toItem (.binaryData off) = none := rfl
+      simp [this]
+
+theorem feed_quit_matchCount (pre : List Ev) : ∀ st : St,
+    (feed .quit st pre).matchCount = st.matchCount + (pre.filter Ev.isMatched).length := by
+  induction pre with
+  | nil => intro st; simp [feed]
+  | cons ev pre ih =>
+    intro st
+    cases ev with
+    | matched o ln bs =>
+      simp only [feed, step, show (Det.quit == Det.convert) = false by decide, Bool.false_and,
+        Bool.false_eq_true, if_false]
+      rw [ih]
+      have : (Ev.matched o ln bs :: pre).filter Ev.isMatched = Ev.matched o ln bs :: pre.filter Ev.isMatched :=
+        List.filter_cons_of_pos (by rfl)
+      rw [this]
+      simp only [List.length_cons]
+      omega
+    | context o ln bs =>
+      simp only [feed, step, show (Det.quit == Det.convert) = false by decide, Bool.false_and,
+        Bool.false_eq_true, if_false]
+      rw [ih, List.filter_cons_of_neg (by simp [Ev.isMatched])]
+    | ctxBreak =>
+      simp only [feed, step]
+      rw [ih, List.filter_cons_of_neg (by simp [Ev.isMatched])]
+    | binaryData o =>
+      simp only [feed, step]
+      rw [ih, List.filter_cons_of_neg (by simp [Ev.isMatched])]
+
+/-- `Convert` mode: once a matching line was offered, a match line or the notice ends up in the
+output. -/
+theorem convert_notice_aux (evs : List Ev) :
+    ∀ st : St,
+      (st.matchCount > 0 ∨ ∃ e ∈ evs, e.isMatched = true) →
+      (st.matchCount > 0 → (∃ it ∈ st.out, it.isMatchLine = true) ∨ st.binOff.isSome = true) →
+      ∃ it ∈ finish .convert (feed .convert st evs), it.isMatchLine = true ∨ it.isNotice = true := by
+  induction evs with
+  | nil =>
+    intro st h1 hP
+    have hmc : st.matchCount > 0 := by
+      cases h1 with
+      | inl h => exact h
+      | inr h => obtain ⟨e, he, _⟩ := h; simp at he
+    simp only [feed, finish]
+    cases hb : st.binOff with
+    | none =>
+      cases hP hmc with
+      | inl h => obtain ⟨it, hit, hm⟩ := h; exact ⟨it, by simpa using hit, Or.inl hm⟩
+      | inr h => simp [hb] at h
+    | some off =>
+      have : ¬ st.matchCount = 0 := by omega
+      simp only [this, if_false]
+      exact ⟨.binaryMatches off, by simp, Or.inr rfl⟩
+  | cons ev evs ih =>
+    intro st h1 hP
+    have tail : ∀ e', e' = ev → e'.isMatched = false →
+        (st.matchCount > 0 ∨ ∃ e ∈ evs, e.isMatched = true) := by
+      intro e' he' hnm
+      cases h1 with
+      | inl h => exact Or.inl h
+      | inr h =>
+        obtain ⟨e, he, hm⟩ := h
+        simp only [List.mem_cons] at he
+        cases he with
+        | inl x => subst x; subst he'; rw [hnm] at hm; simp at hm
+        | inr x => exact Or.inr ⟨e, x, hm⟩
+    cases ev with
+    | matched o ln bs =>
+      by_cases hsup : (Det.convert == Det.convert && st.binOff.isSome) = true
+      · simp only [feed, step, hsup, if_true, finish]
+        have hb : st.binOff.isSome = true := by simpa using hsup
+        cases hbo : st.binOff with
+        | none => simp [hbo] at hb
+        | some off =>
+          simp only [Nat.succ_ne_zero, if_false]
+          exact ⟨.binaryMatches off, by simp, Or.inr rfl⟩
+      · simp only [feed, step, hsup, if_false, Bool.false_eq_true]
+        apply ih
+        · left; show st.matchCount + 1 > 0; omega
+        · intro _
+          left
+          exact ⟨.matchLine ln bs, by simp, rfl⟩
+    | context o ln bs =>
+      by_cases hsup : (Det.convert == Det.convert && st.binOff.isSome) = true
+      · simp only [feed, step, hsup, if_true]
+        exact ih st (tail _ rfl rfl) hP
+      · simp only [feed, step, hsup, if_false, Bool.false_eq_true]
+        apply ih
+        · exact tail _ rfl rfl
+        · intro hmc
+          cases hP hmc with
+          | inl h => obtain ⟨it, hit, hm⟩ := h; exact Or.inl ⟨it, by simp [hit], hm⟩
+          | inr h => exact Or.inr h
+    | ctxBreak =>
+      simp only [feed, step]
+      apply ih
+      · exact tail _ rfl rfl
+      · intro hmc
+        cases hP hmc with
+        | inl h => obtain ⟨it, hit, hm⟩ := h; exact Or.inl ⟨it, by simp [hit], hm⟩
+        | inr h => exact Or.inr h
+    | binaryData o =>
+      simp only [feed, step]
+      apply ih
+      · exact tail _ rfl rfl
+      · intro _; exact Or.inr rfl
 
 end RgVerif.BinaryOut
